@@ -377,3 +377,167 @@ theorem fnv_zero_witness :
   decide +kernel
 
 end L4.C10
+
+/-! ## contracts beyond availability (added): least_conn minimality, ip_hash maximal weight, round-robin turn -/
+namespace L4.C10
+open L4 L4.LB
+
+/-- invariant of the least_conn scan: the current best candidate has exactly `least` connections, and the result has at most as
+many connections as `least` and as every available upstream still to be scanned -/
+theorem leastConnAux_min (pool : Pool) (least : Option Nat) (count : Nat) (best : Option Upstream) (o : List Nat)
+    (hb : ∀ b, best = some b → least = some b.totalConns) (hc : best = none ↔ least = none) :
+    ∀ u, leastConnAux pool least count best o = some u →
+      (∀ l, least = some l → u.totalConns ≤ l) ∧ (∀ v ∈ pool, v.available = true → u.totalConns ≤ v.totalConns) := by
+  induction pool generalizing least count best o with
+  | nil =>
+    intro u hu
+    simp only [leastConnAux] at hu
+    refine ⟨fun l hl => ?_, fun v hv => by cases hv⟩
+    have := hb u hu; rw [this] at hl; cases hl; exact Nat.le_refl _
+  | cons w ws ih =>
+    intro u hu
+    simp only [leastConnAux] at hu
+    by_cases ha : w.available = true
+    · simp only [ha, Bool.not_true, Bool.false_eq_true, ↓reduceIte] at hu
+      -- the new least value
+      cases least with
+      | none =>
+        simp only [↓reduceIte] at hu
+        have hx : (rnd o).1 % (0 + 1) = 0 := by omega
+        rw [if_pos hx] at hu
+        have := ih (some w.totalConns) 1 (some w) (rnd o).2 (by intro b hb'; cases hb'; rfl) (by simp) u hu
+        refine ⟨fun l hl => (by cases hl), fun v hv hva => ?_⟩
+        rcases List.mem_cons.mp hv with hv | hv
+        · subst hv; exact this.1 _ rfl
+        · exact this.2 v hv hva
+      | some l =>
+        have hbn : best ≠ none := by intro hn; have := hc.mp hn; cases this
+        simp only [] at hu
+        by_cases hlt : w.totalConns < l
+        · simp only [hlt, ↓reduceIte] at hu
+          have hx : (rnd o).1 % (0 + 1) = 0 := by omega
+          rw [if_pos hx] at hu
+          have := ih (some w.totalConns) 1 (some w) (rnd o).2 (by intro b hb'; cases hb'; rfl) (by simp) u hu
+          refine ⟨fun l' hl' => ?_, fun v hv hva => ?_⟩
+          · cases hl'; have := this.1 _ rfl; omega
+          · rcases List.mem_cons.mp hv with hv | hv
+            · subst hv; exact this.1 _ rfl
+            · exact this.2 v hv hva
+        · simp only [hlt, ↓reduceIte] at hu
+          split at hu
+          · rename_i heq
+            split at hu
+            · have := ih (some l) (count + 1) (some w) (rnd o).2 (by intro b hb'; cases hb'; rw [heq]) (by simp) u hu
+              refine ⟨fun l' hl' => (by cases hl'; exact this.1 _ rfl), fun v hv hva => ?_⟩
+              rcases List.mem_cons.mp hv with hv | hv
+              · subst hv; have := this.1 _ rfl; omega
+              · exact this.2 v hv hva
+            · have := ih (some l) (count + 1) best (rnd o).2 hb (by simp [hbn]) u hu
+              refine ⟨fun l' hl' => (by cases hl'; exact this.1 _ rfl), fun v hv hva => ?_⟩
+              rcases List.mem_cons.mp hv with hv | hv
+              · subst hv; have := this.1 _ rfl; omega
+              · exact this.2 v hv hva
+          · rename_i hne
+            have := ih (some l) count best o hb (by simp [hbn]) u hu
+            refine ⟨fun l' hl' => (by cases hl'; exact this.1 _ rfl), fun v hv hva => ?_⟩
+            rcases List.mem_cons.mp hv with hv | hv
+            · subst hv; have := this.1 _ rfl; omega
+            · exact this.2 v hv hva
+    · have ha' : w.available = false := by simpa using ha
+      simp only [ha', Bool.not_false, ↓reduceIte] at hu
+      have := ih least count best o hb hc u hu
+      refine ⟨this.1, fun v hv hva => ?_⟩
+      rcases List.mem_cons.mp hv with hv | hv
+      · subst hv; rw [ha'] at hva; cases hva
+      · exact this.2 v hv hva
+
+/-- **least_conn picks a least-loaded upstream**: no available upstream has fewer open connections than the one returned,
+whatever the random source says -/
+theorem leastConn_minimal (pool : Pool) (o : List Nat) (u : Upstream) (h : leastConn pool o = some u) :
+    ∀ v ∈ pool, v.available = true → u.totalConns ≤ v.totalConns :=
+  (leastConnAux_min pool none 0 none o (by intro b hb; cases hb) (by simp) u h).2
+
+/-- invariant of the rendezvous scan: the weight carried with the best candidate is its own weight, and the result's weight is
+at least the carried weight and the weight of every available upstream still to be scanned -/
+theorem hrwAux_max (pool : Pool) (s : Bytes) (best : Option (Upstream × Nat))
+    (hb : ∀ b h, best = some (b, h) → h = fnv32a (b.name ++ s)) :
+    ∀ u h, hrwAux pool s best = some (u, h) →
+      h = fnv32a (u.name ++ s) ∧ (∀ b hb', best = some (b, hb') → hb' ≤ h) ∧
+      (∀ v ∈ pool, v.available = true → fnv32a (v.name ++ s) ≤ h) := by
+  induction pool generalizing best with
+  | nil =>
+    intro u h hu
+    simp only [hrwAux] at hu
+    refine ⟨hb u h hu, fun b hb' hbb => ?_, fun v hv => by cases hv⟩
+    rw [hu] at hbb; cases hbb; exact Nat.le_refl _
+  | cons w ws ih =>
+    intro u h hu
+    simp only [hrwAux] at hu
+    by_cases ha : w.available = true
+    · simp only [ha, Bool.not_true, Bool.false_eq_true, ↓reduceIte] at hu
+      cases best with
+      | none =>
+        simp only [] at hu
+        have := ih (some (w, fnv32a (w.name ++ s))) (by intro b h' hbb; cases hbb; rfl) u h hu
+        refine ⟨this.1, fun b hb' hbb => (by cases hbb), fun v hv hva => ?_⟩
+        rcases List.mem_cons.mp hv with hv | hv
+        · subst hv; exact this.2.1 _ _ rfl
+        · exact this.2.2 v hv hva
+      | some b =>
+        obtain ⟨bu, bh⟩ := b
+        simp only [] at hu
+        split at hu
+        · rename_i hgt
+          have := ih (some (w, fnv32a (w.name ++ s))) (by intro b h' hbb; cases hbb; rfl) u h hu
+          refine ⟨this.1, fun b hb' hbb => ?_, fun v hv hva => ?_⟩
+          · cases hbb; have := this.2.1 _ _ rfl; omega
+          · rcases List.mem_cons.mp hv with hv | hv
+            · subst hv; exact this.2.1 _ _ rfl
+            · exact this.2.2 v hv hva
+        · rename_i hle
+          have := ih (some (bu, bh)) hb u h hu
+          refine ⟨this.1, fun b hb' hbb => (by cases hbb; exact this.2.1 _ _ rfl), fun v hv hva => ?_⟩
+          rcases List.mem_cons.mp hv with hv | hv
+          · subst hv; have := this.2.1 _ _ rfl; omega
+          · exact this.2.2 v hv hva
+    · have ha' : w.available = false := by simpa using ha
+      simp only [ha', Bool.not_false, ↓reduceIte] at hu
+      have := ih best hb u h hu
+      refine ⟨this.1, this.2.1, fun v hv hva => ?_⟩
+      rcases List.mem_cons.mp hv with hv | hv
+      · subst hv; rw [ha'] at hva; cases hva
+      · exact this.2.2 v hv hva
+
+/-- **ip_hash is rendezvous hashing**: the upstream returned has the highest FNV-1a weight `hash(name ++ ip)` among the available
+upstreams — so it depends only on the client address and on which upstreams are available, and an upstream leaving or joining
+the pool changes the choice only for the clients whose highest weight it carries -/
+theorem ipHash_max_weight (pool : Pool) (ip : Bytes) (u : Upstream) (h : ipHash pool ip = some u) :
+    ∀ v ∈ pool, v.available = true → fnv32a (v.name ++ ip) ≤ fnv32a (u.name ++ ip) := by
+  unfold ipHash at h
+  cases hr : hrwAux pool ip none with
+  | none => rw [hr] at h; cases h
+  | some r =>
+    obtain ⟨ru, rh⟩ := r
+    rw [hr] at h; simp at h; subst h
+    have := hrwAux_max pool ip none (by intro b h hb; cases hb) ru rh hr
+    intro v hv hva
+    rw [← this.1]; exact this.2.2 v hv hva
+
+/-- **round robin takes turns**: when the upstream whose turn it is (slot `(counter + 1) mod n`) is available it is the one
+returned and the counter advances by exactly one; so over `n` consecutive selections on a pool whose upstreams all stay
+available every upstream is returned exactly once (slots `counter+1 … counter+n` modulo `n`, without a counter wrap) -/
+theorem roundRobin_turn (pool : Pool) (robin : Nat) (hn : pool.length ≠ 0) (u : Upstream)
+    (hu : pool[((robin + 1) % 2 ^ 32) % pool.length]? = some u) (ha : u.available = true) :
+    roundRobin pool robin = (some u, (robin + 1) % 2 ^ 32) := by
+  unfold roundRobin
+  rw [if_neg hn]
+  cases hl : pool.length with
+  | zero => exact absurd hl hn
+  | succ k =>
+    rw [hl] at hu
+    simp only [rrAux, Nat.add_zero]
+    have hm : ((robin + 1) % 2 ^ 32 % (k + 1)) % (k + 1) = (robin + 1) % 2 ^ 32 % (k + 1) := Nat.mod_mod _ _
+    rw [hm, hu]
+    simp [ha]
+
+end L4.C10
